@@ -11,10 +11,13 @@ NAME_POOLS = [
     ["$width", "$new_elem", "$start", "$line", "$port", "$$", "$capability", "$unit", "$elem", "$lock_type"],
     # Latin-1 names: letters with case partners above U+00BF, letters without one (sharp s, micro sign,
     # y-diaeresis), non-letters, and the two Latin-1 white-space characters (NEL, no-break space)
+    # names with line terminators and other separators inside (a YAML block scalar yields "name\n"): whatever
+    # str.splitlines / str.split / str.strip treat specially
+    ["line\nbreak", "nel\x85x", "ff\x0cx", "cr\rx", "vt\x0bx", "fs\x1cx", "tab\tx", "trail\n", " lead", ""],
     # numbered names: natural-sort traps (digit runs of different length, leading zeros, '-' below '0')
     ["ALU2", "ALU10", "u9", "u10", "a01", "a1", "MEM1", "MEM-1", "x100", "x20"],
     ["\u00c9cole", "\u00f1and\u00fa", "Stra\u00dfe", "\u00b5op", "\u00dcnit", "\u00c6sir", "\u00feorn", "\u00ff",
-     "a\u00d7b", "x\u00f7y\u00a0z"],
+     "STRASSE", "x\u00f7y\u00a0z"],
 ]
 
 
